@@ -38,7 +38,7 @@ func New(srcDir, moqPkg string) (*Registry, error) {
 	return &Registry{
 		srcPkgName:  srcPkg.Name,
 		srcPkgTypes: srcPkg.Types,
-		moqPkgPath:  findPkgPath(moqPkg, srcPkg.PkgPath),
+		moqPkgPath:  findPkgPath(moqPkg, srcPkg),
 		aliases:     parseImportsAliases(srcPkg.Syntax),
 		imports:     make(map[string]*Package),
 	}, nil
@@ -185,8 +185,11 @@ func pkgInfoFromPath(srcDir string, mode packages.LoadMode) (*packages.Package, 
 	return pkgs[0], nil
 }
 
-func findPkgPath(pkgInputVal string, srcPkgPath string) string {
-	if pkgInputVal == "" {
+func findPkgPath(pkgInputVal string, srcPkg *packages.Package) string {
+	srcPkgPath := srcPkg.PkgPath
+	// No package name or the name of the source package itself: the mock
+	// lives in the source package.
+	if pkgInputVal == "" || pkgInputVal == srcPkg.Name {
 		return srcPkgPath
 	}
 	if pkgInDir(srcPkgPath, pkgInputVal) {
